@@ -11,12 +11,12 @@ HOOK_COMMITS = []
 
 PROPS = {
     "C01": {
-        "units": ["h1_chunked", "h1_codec", "h1_framing"],
+        "units": ["h1_chunked", "h1_codec", "h1_framing", "h1_poll_request"],
         "kani": [],
         "technique": "Verus contracts (requires/ensures/loop invariants) on the extracted real chunked and payload decoders against an RFC 7230 byte automaton; MessageType::set_headers and Request::decode against an RFC 7230 section 3.3.3 framing oracle (a fold over the raw header list); Codec::decode's head/body separation; segmentation independence as a lemma over the decoder contracts",
-        "level_text": "deductive proof, for all inputs and all iterations, that every chunked-decoder step is the RFC 7230 automaton's, that PayloadDecoder::decode emits exactly the framed bytes and that the result is independent of read segmentation (lemma over the contracts); that set_headers accepts a head exactly when the fold of the framing rules over its header list does (repeated or non-numeric/signed Content-Length, repeated or non-chunked Transfer-Encoding => ParseError::Header) and keeps every header in order; that Request::decode delivers a request only with the payload decoder the RFC 7230 section 3.3.3 oracle prescribes and rejects Content-Length together with Transfer-Encoding, Transfer-Encoding in HTTP/1.0 or not ending in chunked, HTTP/1.0 POST without length; normalises Content-Length: 0; consumes nothing unless a request is returned and never waits on a partial head of MAX_BUFFER_SIZE bytes or more; that the codec never hands body bytes to the head parser",
+        "level_text": "deductive proof, for all inputs and all iterations, that every chunked-decoder step is the RFC 7230 automaton's, that PayloadDecoder::decode emits exactly the framed bytes and that the result is independent of read segmentation (lemma over the contracts); that set_headers accepts a head exactly when the fold of the framing rules over its header list does (repeated or non-numeric/signed Content-Length, repeated or non-chunked Transfer-Encoding => ParseError::Header) and keeps every header in order; that Request::decode delivers a request only with the payload decoder the RFC 7230 section 3.3.3 oracle prescribes and rejects Content-Length together with Transfer-Encoding, Transfer-Encoding in HTTP/1.0 or not ending in chunked, HTTP/1.0 POST without length; normalises Content-Length: 0; consumes nothing unless a request is returned and never waits on a partial head of MAX_BUFFER_SIZE bytes or more; that the codec never hands body bytes to the head parser; and for InnerDispatcher::poll_request (the decode loop): after the codec reports a parse error it is never called again (ghost `poisoned` flag makes a further decode a precondition violation) in this call nor in any later one (READ_DISCONNECT is set and gates the function), the error is answered by exactly one queued response with status 431 for an oversized head and 400 otherwise, at most one error response is queued per call, and nothing is decoded while draining, with a full pipeline queue or after READ_DISCONNECT",
         "level_note": "assumes shim contracts for bytes::BytesMut/Bytes; the httparse call inside Request::decode (incl. MaybeUninit header array and HeaderIndex::record pointer arithmetic) is replaced by an assumed-contract shim (R12) whose result is: head length within the buffer, index ranges inside the head; header value text functions (to_str, trim, parse::<u64>, eq_ignore_ascii_case) are uninterpreted, with one assumed string fact relating the two spellings of `is chunked`",
-        "not_decided": ["InnerDispatcher::poll_request: a ParseError is answered with exactly one 400/431, READ_DISCONNECT is set and no byte after the point of rejection is decoded (dispatcher; not under contract)", "httparse itself (head syntax, prefix-monotone Partial/Complete)", "the method/target/version/header VALUES the application sees (httparse + http crate)"],
+        "not_decided": ["that the queued 400/431 is actually written and the connection then closed (poll_response / Dispatcher::poll: not under contract)", "httparse itself (head syntax, prefix-monotone Partial/Complete)", "the method/target/version/header VALUES the application sees (httparse + http crate)"],
         "assumptions": [],
     },
 }
@@ -103,17 +103,17 @@ PROPS["C04"] = {
     "assumptions": ["poll_flush/read_available precondition: the io object is present (it is only taken on upgrade)"],
 }
 PROPS["C05"] = {
-    "units": ["h1_dispatcher_io", "h1_payload", "multipart_payload", "web_payload_body"],
+    "units": ["h1_dispatcher_io", "h1_poll_request", "h1_payload", "multipart_payload", "web_payload_body"],
     "kani": [],
     "technique": "Verus contracts on the individual guard mechanisms: read_available's buffer cap, the body channel's back-pressure flag, bounded extractor/multipart buffers",
     "level_text": "deductive proof of each guard under contract, for all inputs: read_available attempts no read once read_buf holds MAX_BUFFER_SIZE bytes and otherwise only appends; the body channel's need_read flag is exactly (buffered < 32 KiB) after every feed/poll and can_read refuses to read while the consumer applies back-pressure; poll_stream/append_pending never grow the multipart buffer past its limit; HttpMessageBody never buffers beyond its limit",
     "level_note": "each guard is proved separately; their composition into one per-connection high-water mark over all schedules is not decided; MAX_PIPELINED_MESSAGES and the SendPayload write-buffer loop live inside poll_request/poll_response (not under contract); the 431 path (Request::decode TooLarge) is not under contract",
-    "not_decided": ["Request::decode: Partial with >= MAX_BUFFER_SIZE bytes => TooLarge (httparse call site)", "poll_request: at most MAX_PIPELINED_MESSAGES queued", "poll_response SendPayload loop bounded by h1_write_buffer_size", "the size of one socket read (spare capacity chosen by BytesMut::reserve)", "global maximum over executions"],
+    "not_decided": ["the number of requests queued by ONE poll_request call (the 16-message limit is checked on entry only)", "poll_response SendPayload loop bounded by h1_write_buffer_size", "the size of one socket read (spare capacity chosen by BytesMut::reserve)", "global maximum over executions"],
     "assumptions": [],
 }
 
 PROPS["C03"] = {
-    "units": ["h1_dispatcher_io", "h1_codec"],
+    "units": ["h1_dispatcher_io", "h1_codec", "h1_poll_request"],
     "kani": [],
     "technique": "Verus contracts on the extracted real decision functions of the reuse discipline: should_close_for_unread_payload, enter_linger, can_read, read_available's FINISHED handling, Codec's connection-type bookkeeping",
     "level_text": "deductive proof, for all states, of the functions that implement close-means-close: the unread-payload close decision equals `body unfinished and not (dropped and drainable)`; enter_linger clears KEEP_ALIVE and sets LINGER|FINISHED touching nothing else; no read is attempted after READ_DISCONNECT; while an unread, dropped request body is being drained a successful read does not clear FINISHED (so the close decision survives the drain) and no other flag is touched; the codec records Close when keep-alive is disabled and a response's Close/Upgrade overrides the recorded type; body bytes are never handed to the head parser while a payload decoder is installed",
